@@ -357,7 +357,8 @@ void run_mtcase(std::istream &in, bool is_void, const std::vector<std::string> &
         if (w.empty()) continue;
         if (w[0] == "end") { vh::emit("end", evs); return; }
         if (w[0] == "run") {
-            alarm(60);      // a lost wake-up shows as a hang: die instead (reported as a crash)
+            // a lost item / lost wake-up shows as a hang: die instead (reported as a crash, rc = -SIGALRM)
+            alarm(8 + (unsigned)((long long)P * N / 10000));
             std::string r = is_void ? run_mt<void>(P, C, N, mode, seed) : run_mt<int>(P, C, N, mode, seed);
             alarm(0);
             vh::emit(r, evs);
